@@ -168,7 +168,7 @@ def run(ctx: Ctx) -> None:  # noqa: C901, PLR0912, PLR0915
     dyn_traces, dyn_src = [], []
     if usable:
         sims = ctx.simulate("MC_GoalsManager", "MC_GoalsManager_sim.cfg",
-                            num=150 if ctx.quick else 3000, depth=90 if ctx.quick else 240, env={"GRAPHS_FILE": str(gfile)})
+                            num=150 if ctx.quick else 600, depth=90 if ctx.quick else 120, env={"GRAPHS_FILE": str(gfile)})
         seen = set()
         for st in sims:
             gi = st["gi"]
